@@ -282,7 +282,7 @@ func FuzzEncryptedKeyset(f *testing.F) {
 	for _, b := range hostileBinary() {
 		f.Add(b, []byte{})
 	}
-	f.Add([]byte{0x12, 0x00}, []byte{})                         // EncryptedKeyset: field 2 is encrypted_keyset
+	f.Add([]byte{0x12, 0x00}, []byte{})                                     // EncryptedKeyset: field 2 is encrypted_keyset
 	f.Add([]byte{0x12, 0x0c, 0, 0, 0, 0, 0, 0, 0, 0, 0, 0, 0, 0}, []byte{}) // 12 bytes: nonce only
 	f.Add([]byte{0x12, 0xff, 0xff, 0xff, 0xff, 0x0f}, []byte{})
 	f.Fuzz(func(t *testing.T, data, ad []byte) {
